@@ -478,7 +478,62 @@ class RetryWhenBusy(Harness):
             raise Violation("not-due-record-touched", f"{params['who']} with inbox {inbox}")
 
 
+class DedupPermanent(Harness):
+    """A retransmission is recognised however much traffic or time lies between the original and the retry: the sender keeps
+    retrying for up to 20 resend periods and the receiver may be busy with hundreds of other messages meanwhile."""
+
+    name = "dedup-permanent"
+    engine = "E1-crosshair"
+    properties = ("C06",)
+    rule = "one path = (number of other messages received in between from a palette up to 300, from the same or another sender, time elapsed from a palette up to one hour); non-trivial = >=1 message in between"
+    assumptions = ["fakezmq contract"]
+    outside = ["memory growth of the receiver's record of what it has seen"]
+    BETWEEN = [0, 1, 10, 300]
+    ELAPSED_S = [0, 1, 5, 20, 3600]
+
+    def shards(self, tier):
+        return [{"between": b} for b in self.BETWEEN]
+
+    def budget(self, tier):
+        return 60.0
+
+    def bounds(self, tier):
+        return {"messages_in_between": self.BETWEEN, "seconds_elapsed": self.ELAPSED_S}
+
+    def functions(self):
+        return [comms.Listener._recv_one, comms.Listener.recv_messages]
+
+    def body(self, ch, params):
+        with ch.untraced():
+            fakezmq.NET.reset()
+            CLOCK.now = 1_000_000_000_000
+            lst = comms.Listener("tcp://rx:1")
+            me = "tcp://tx:9"
+            first = [serde.ser_message(Syn(idx=0, addr=me)), serde.ser_message(DatasetPurge(ds=DatasetId("t", "0")))]
+            fakezmq.NET.q("tcp://rx:1").append(list(first))
+            got = lst.recv_messages(0)
+            if len(got) != 1:
+                raise Violation("message-lost-silently:first-delivery", repr(got))
+            same_sender = ch.flag("in_between_from_same_sender")
+            for i in range(params["between"]):
+                fakezmq.NET.q("tcp://rx:1").append([serde.ser_message(Syn(idx=i + 1, addr=me if same_sender else "tcp://other:9")), serde.ser_message(DatasetPurge(ds=DatasetId(f"u{i}", "0")))])
+            CLOCK.now += ch.choose(self.ELAPSED_S, "elapsed") * 1_000_000_000
+            n = len(lst.recv_messages(0))
+            if n != params["between"]:
+                raise Violation("message-lost-silently:in-between", f"{n} of {params['between']} delivered")
+            CLOCK.now += ch.choose(self.ELAPSED_S, "elapsed2") * 1_000_000_000
+            fakezmq.NET.q("tcp://rx:1").append(list(first))  # the retry of the very first message (its ack was lost)
+            again = lst.recv_messages(0)
+            ch.note("nontrivial", params["between"] >= 1)
+            if again:
+                raise Violation("retransmission-delivered-again", f"after {params['between']} other messages the retry of message 0 was handed to the application a second time")
+            acks = [pickle.loads(f[0]) for f in fakezmq.NET.queues.get(me, [])]
+            if sum(1 for a in acks if a == Ack(idx=0)) != 2:
+                raise Violation("syn-not-acknowledged", f"acks for message 0: {acks[:3]}...")
+
+
 register(AckHarness())
 register(RetryWhenBusy())
+register(DedupPermanent())
 register(Framing())
 register(RetryBudget())
